@@ -58,6 +58,7 @@ POINTS = {
     'P5': (3.0, 0.0),      # far below the start
     'P6': (2.0, 0.0),      # between P5 and PN
     'PN': (-1.0, 0.5),     # FINITE value (between P6 and P0) but infinite gradient: d/db1 (b1+1)**0.5 at b1 = -1
+    'PQ': (0.3, -4.0),     # value NOT A NUMBER (log of a negative number) while every derivative is finite
 }
 MODEL_NAME = 'm15'
 ITER = f'__{MODEL_NAME}.iter'
@@ -65,15 +66,16 @@ ITER = f'__{MODEL_NAME}.iter'
 
 def ref_ll(p, x=X, y=Y):
     """Reference value and finiteness of the gradient, plain Python.
-    log likelihood = - sum_rows [ (y - b1 x - exp(b2))**2 + (b1 + 1)**0.5 ]"""
+    log likelihood = - sum_rows [ (y - b1 x - exp(b2))**2 + (b1 + 1)**0.5 - 0.001 log(b2 + 3) ]
+    (a point whose value is not a number is not a candidate for "the best point", whatever its derivatives)"""
     b1, b2 = p
     try:
         e = math.exp(b2)
     except OverflowError:
         return float('-inf'), False
-    if b1 < -1.0:
+    if b1 < -1.0 or b2 <= -3.0:
         return float('nan'), False
-    f = -sum((yy - b1 * xx - e) ** 2 + (b1 + 1.0) ** 0.5 for xx, yy in zip(x, y))
+    f = -sum((yy - b1 * xx - e) ** 2 + (b1 + 1.0) ** 0.5 - 0.001 * math.log(b2 + 3.0) for xx, yy in zip(x, y))
     return f, math.isfinite(f) and b1 > -1.0
 
 
@@ -88,9 +90,12 @@ class RefModel:
         self.best_f = None
         self.best_pts = []  # all points attaining the best value (ties)
         self.evaluated = []
+        self.nan_before_first_finite = False
 
     def evaluate(self, p, f, finite):
         self.evaluated.append((tuple(p), f, finite))
+        if f != f and self.best_f is None:
+            self.nan_before_first_finite = True
         if not finite:
             return
         if self.best_f is None or f > self.best_f:
@@ -125,7 +130,8 @@ def make_biogeme(names=('b1', 'b2'), start=(0.0, 0.0), fs=None, bounds=None, alg
     if extreme:
         ll = -((Variable('y') - 1e-305 * ba) ** 2) - (bbeta * 1e-3 - Variable('x')) ** 2 * 1e-3
     else:
-        ll = -((Variable('y') - ba * Variable('x') - exp(bbeta)) ** 2) - (ba + 1.0) ** 0.5
+        from biogeme.expressions import log
+        ll = -((Variable('y') - ba * Variable('x') - exp(bbeta)) ** 2) - (ba + 1.0) ** 0.5 + 0.001 * log(bbeta + 3.0)
     kw = dict(save_iterations=True, generate_html=False, generate_pickle=False)
     if algo:
         kw['optimization_algorithm'] = algo
@@ -190,8 +196,10 @@ def parse_strict(content: bytes, names):
 def check_file(content, names, ref: RefModel, tol=0.0):
     """Returns (clause, detail) or None."""
     if content is None:
-        if ref.best_f is not None:
+        if ref.best_f is not None and not ref.nan_before_first_finite:
             return ('file-missing-after-finite-evaluation', f'best={ref.best_pts}')
+        # (after a first value that is not a number the library stops saving for good: no file, so the statement - which
+        # speaks of the file "whenever it exists" - is not contradicted; not judged)
         return None
     if ref.best_f is None:
         return ('file-exists-without-finite-evaluation', repr(content))
